@@ -203,8 +203,10 @@ class ASTNode(DataClassSerializeMixin):
 
         # Build common data for content_id & id
         cid_data = ""
+        id_props = ""
 
-        # Property values are encoded in the same way for both id's
+        # Property values are encoded in the same way for both id's,
+        # except that content_id frames each value with its length
         for val, f in self.get_properties(
             skip_id=True,
             skip_origin=True,
@@ -212,11 +214,14 @@ class ASTNode(DataClassSerializeMixin):
             skip_non_compare=True,
             sort_keys=True,
         ):
-            cid_data += f":{f.name}="
-            cid_data += f"{type(val)}({val!s})"
+            val_str = str(val)
+            id_props += f":{f.name}={type(val)}({val_str})"
+            # Frame the value with its length, so that the content of one value
+            # can't be confused with the separators and the next value
+            cid_data += f":{f.name}={type(val)}({len(val_str)}:{val_str})"
 
         # Full ID must include origin's (current node and children)
-        id_data = f"{self.__class__.__name__}@{self.origin.fqn}{cid_data}"
+        id_data = f"{self.__class__.__name__}@{self.origin.fqn}{id_props}"
         # Content ID - just use class
         cid_data = self.__class__.__name__ + cid_data
 
